@@ -9,7 +9,7 @@ SetToSeq(S) == CHOOSE s \in [1..Cardinality(S) -> S] : \A i, j \in 1..Cardinalit
 VARIABLES fp, pp, mp, flag, gen, iter
 vars == <<fp, pp, mp, flag, gen, iter>>
 
-GenLists == { <<>>, <<"A">>, <<"B">>, <<"D">>, <<"A", "B">>, <<"B", "A">>, <<"A", "C">>, <<"C", "A">>, <<"A", "D">>, <<"D", "E">>,
+GenLists == { <<>>, <<"A">>, <<"B">>, <<"C">>, <<"E">>, <<"D">>, <<"E", "A">>, <<"A", "B">>, <<"B", "A">>, <<"A", "C">>, <<"C", "A">>, <<"A", "D">>, <<"D", "E">>,
               <<"A", "B", "C">>, <<"C", "B", "A">>, <<"A", "B", "C", "D", "E">>, <<"E", "D", "C", "B", "A">> }
 
 Init == fp \in FeatureParams /\ pp \in PathsParams /\ mp \in MParams /\ flag \in FlagParams /\ gen \in GenLists /\ iter \in {1, 2}
